@@ -8,7 +8,7 @@ SPEC = dict(
     technique="Lean 4 completeness proofs (for every allowed decision there is a tape) + set comparison with the real hooks run under bolero's exhaustive driver",
     level_text=("Partial. Proved for every queue/forcing: every prefix size of an ordered input is released by some tape; every "
                 "split of an unordered input into an in-order sub-multiset and the rest is released by some tape (the min_index "
-                "pruning loses no subset); every combination of per-key prefixes of a keyed ordered input and of per-key sub-multisets of a keyed unordered input; every buffered "
+                "pruning loses no subset) and, on distinct items, a released batch determines the whole call sequence that produced it (each subset is visited exactly once); every combination of per-key prefixes of a keyed ordered input and of per-key sub-multisets of a keyed unordered input; every buffered "
                 "snapshot version of a singleton and the unchanged snapshot; every ready tick/observation is picked by the "
                 "scheduler's draw; a single-hook tick/observation resolves to that hook's forced decision space. "
                 "Stated but not proved (def ...Statement): run_hooks reaches every multi-hook decision vector with a non-trivial "
